@@ -233,6 +233,11 @@ def gen_case(r, ctx, big=False):
     if r.random() < 0.12 and src["kind"] != "area":       # sparse source: a handful of far-apart points
         src["lons"] = [wrap(x * 7.3) for x in src["lons"]]
         stag.append("sparse")
+    if src["kind"] != "area" and n > 16 and r.random() < 0.2:
+        # first source pixel NaN in both coordinates (more than one kd-tree leaf: a NaN point in the tree corrupts the search)
+        src["lons"][0] = NAN
+        src["lats"][0] = NAN
+        stag.append("nan_first")
     tgt, m, ttag = gen_geo(r, ctx, "tgt", centre, spread * r.choice([0.5, 1.0, 1.0, 1.5]), polar, nt, tkinds)
     if src["kind"] != "area" and tgt["kind"] != "area" and r.random() < 0.15:
         # targets sitting exactly on source points
@@ -292,6 +297,11 @@ def fixed_cases():
                  "radius": 1e7, "data": {"dtype": "int32", "k": 2, "values": [[1, 2], [3, 4], [5, 6], [7, 8]],
                                           "mask": [[0, 1], [1, 1], [0, 0], [1, 0]], "layout": "flat"}, "fill": None},
                 dict(base, src="swath/invalid", tgt="swath/invalid", data="int32/k2/masked/flat", fill="None", radius="huge")))
+    # first source pixel NaN/NaN in front of 24 regular points (two kd-tree leaves), targets next to several of them
+    out.append(({"src": sw([NAN] + [0.5 * i for i in range(24)], [NAN] + [0.1 * (i % 3) for i in range(24)]),
+                 "tgt": sw([0.26, 3.1, 5.9, 8.45, 11.3, 200.0], [0.0, 0.1, 0.2, 0.05, 0.0, 0.0]), "radius": 40000.0,
+                 "data": {"dtype": "float64", "k": 0, "values": [[float(i)] for i in range(25)], "mask": None, "layout": "flat"}, "fill": -1.0},
+                dict(base, src="swath/invalid+nan_first", tgt="swath/invalid", data="float64/k0/plain/flat", fill="number")))
     return out
 
 
@@ -345,6 +355,20 @@ def oracle(case, obs):
     if len(res["vals"]) != M * kk:
         fails.append(("C02.shape", "output has %d elements for %d targets x %d channels" % (len(res["vals"]), M, kk)))
         return fails
+    # invalid (NaN / inf / out-of-range) locations must be flagged invalid by the implementation itself
+    bad_s = [i for i in range(min(len(sl), len(obs["vii"]))) if obs["vii"][i] and not in_range(sl[i], sa[i])]
+    if bad_s:
+        i = bad_s[0]
+        fails.append(("C02.invalid_contributes.source_flagged_valid",
+                      "source %d (lon %r lat %r) is flagged valid in valid_input_index (%d such sources): it enters the kd-tree"
+                      % (i, sl[i], sa[i], len(bad_s))))
+    if sum(obs["vii"]):      # with no valid source _create_empty_info reports all-true and every output is fill
+        bad_t = [i for i in range(min(len(tl), len(obs["voi"]))) if obs["voi"][i] and not in_range(tl[i], ta[i])]
+        if bad_t:
+            i = bad_t[0]
+            fails.append(("C02.invalid_contributes.target_flagged_valid",
+                          "target %d (lon %r lat %r) is flagged valid in valid_output_index (%d such targets): it is queried"
+                          % (i, tl[i], ta[i], len(bad_t))))
     sv = [i for i in range(len(sl)) if in_range(sl[i], sa[i])]
     sx = {i: xyz(sl[i], sa[i]) for i in sv}
     mask_in = d["mask"]
@@ -551,7 +575,7 @@ def run(ctx):
         ctx.count("tgt=" + tg["tgt"].split("/")[0])
         ctx.count("data=" + tg["data"].split("/")[0] + "/" + tg["data"].split("/")[2])
         for t in (tg["src"] + "+" + tg["tgt"]).replace("/", "+").split("+"):
-            if t in ("invalid", "dup", "f32", "sparse", "coincident"):
+            if t in ("invalid", "dup", "f32", "sparse", "coincident", "nan_first"):
                 ctx.count("feature=" + t)
         judge(ctx, case, obs, tg)
         check_xyz(ctx, case, obs, tg)
